@@ -21,8 +21,8 @@ EXTENDS Naturals, Sequences, FiniteSets, TLC, Json, Randomization
  module, runs ClassDiagram and ORMatic from the working tree and compares.
  ***************************************************************************************************)
 CONSTANTS MaxF, SampleSize, ForORM       \* ForORM = TRUE: only kinds the ORM documentation lists
-VARIABLES b2, b3, f1, f2, f3, u2, u3
-vars == <<b2, b3, f1, f2, f3, u2, u3>>
+VARIABLES b2, b3, f1, f2, f3, u2, u3, role
+vars == <<b2, b3, f1, f2, f3, u2, u3, role>>
 Classes == {"K1", "K2", "K3"}
 Scalar == {"int", "str", "bool", "optfloat", "dt", "optdt", "enum", "optenum", "liststr"}
 RefKinds == IF ForORM THEN {"ref", "optref", "list", "set"} ELSE {"ref", "optref", "list", "set", "seq", "typ"}
@@ -32,10 +32,13 @@ FieldSeqs == UNION { [1..n -> Field] : n \in 0..MaxF }
 \* the full product is too large to build: each class draws its field list from an independent random sample
 \* u2 / u3: the class derives from its base THROUGH an intermediate class that is not part of the model (not given to ClassDiagram /
 \* ORMatic) and declares one scalar field of its own (hb / hc): the mapped base is then no direct base
-Init == \E t \in RandomSubset(SampleSize, {"-", "K1"} \X {"-", "K1", "K2"} \X RandomSubset(30, FieldSeqs) \X RandomSubset(30, FieldSeqs)
-                                             \X RandomSubset(30, FieldSeqs) \X {0, 1} \X {0, 1}) :
+Init == \E t \in RandomSubset(SampleSize, {"-", "K1"} \X {"-", "K1", "K2"} \X RandomSubset(25, FieldSeqs) \X RandomSubset(25, FieldSeqs)
+                                             \X RandomSubset(25, FieldSeqs) \X {0, 1} \X {0, 1} \X {0, 1}) :
            /\ b2 = t[1] /\ b3 = t[2] /\ f1 = t[3] /\ f2 = t[4] /\ f3 = t[5]
            /\ u2 = (t[6] = 0 /\ t[1] # "-") /\ u3 = (t[7] = 0 /\ t[2] # "-")
+           \* role: K3 is a Role[K1] (role design pattern) with two mandatory one-to-one fields in front of its other fields:
+           \*       rtc : K1 (the role taker) and rec : K2 (another mandatory reference); only for the diagram (C17)
+           /\ role = (t[8] = 0 /\ t[2] = "-" /\ ~ForORM)
 Next == FALSE /\ UNCHANGED vars
 Spec == Init /\ [][Next]_vars
 
@@ -48,6 +51,7 @@ Ancestors(c) == IF BaseOf(c) = "-" THEN {} ELSE {BaseOf(c)} \cup Ancestors(BaseO
 IsRef(k) == k \in {"ref", "optref", "list", "set", "seq", "typ"}
 \* ---- C17
 OwnAssoc(c) == { <<c, Name(c, i), FieldsOf(c)[i].t>> : i \in { j \in DOMAIN FieldsOf(c) : IsRef(FieldsOf(c)[j].k) } }
+               \cup (IF role /\ c = "K3" THEN { <<"K3", "rtc", "K1">>, <<"K3", "rec", "K2">> } ELSE {})
 Assoc(c) == { <<c, a[2], a[3]>> : a \in OwnAssoc(c) \cup UNION { OwnAssoc(x) : x \in Ancestors(c) } }
 Via(c) == CASE c = "K2" -> u2 [] c = "K3" -> u3 [] OTHER -> FALSE
 Diagram == [inherit |-> { <<BaseOf(c), c>> : c \in { x \in Classes : BaseOf(x) # "-" /\ ~Via(x) } },      \* direct bases only
@@ -85,7 +89,7 @@ OwnTypeCollection == \E c \in Classes : \E i \in DOMAIN FieldsOf(c) : FieldsOf(c
 \* sanity of the reference
 RefSane == /\ \A c \in Classes : \A r \in Rels(c) : r.target \in Classes
            /\ \A c \in Classes : c \notin Ancestors(c)
-Emit == PrintT(ToJson([b2 |-> b2, b3 |-> b3, f1 |-> f1, f2 |-> f2, f3 |-> f3, u2 |-> u2, u3 |-> u3, fields |-> Fields, diagram |-> Diagram,
+Emit == PrintT(ToJson([b2 |-> b2, b3 |-> b3, f1 |-> f1, f2 |-> f2, f3 |-> f3, u2 |-> u2, u3 |-> u3, role |-> role, fields |-> Fields, diagram |-> Diagram,
                        sub |-> SubAssoc(FALSE), sub_named |-> SubAssoc(TRUE), parallel |-> Parallel,
                        schema |-> Schema, own_type_collection |-> OwnTypeCollection]))
 ====
